@@ -52,7 +52,7 @@ func c13Values() []c13Val {
 var c13Mods = []string{"default", "ifThen", "ifThenElse", "jsonEscape", "jsonQuote", "htmlEscape", "linkEscape", "urlEncode", "attrEscape", "cssEscape", "jsEscape", "raw",
 	"round", "roundPrec", "ceil", "ceilPrec", "floor", "floorPrec", "time::now", "time::format", "time::date", "time::add", "time::date_modify",
 	"math::abs", "math::inc", "math::dec", "math::add", "math::sub", "math::mul", "math::div", "math::mod", "math::sqrt", "math::cbrt", "math::radical", "math::rad", "math::exp", "math::log",
-	"math::factorial", "math::fact", "math::max", "math::min", "math::pow", "def", "if", "ifel", "je", "jq", "he", "le", "ue", "ae", "ce", "jse", "roundp", "ceilp", "floorp"}
+	"testns::modCB", "testns::pack", "testns::extract", "testns::marshal", "math::factorial", "math::fact", "math::max", "math::min", "math::pow", "def", "if", "ifel", "je", "jq", "he", "le", "ue", "ae", "ce", "jse", "roundp", "ceilp", "floorp"}
 
 var escFamily = map[string]bool{"jsonEscape": true, "jsonQuote": true, "htmlEscape": true, "linkEscape": true, "urlEncode": true, "attrEscape": true, "cssEscape": true, "jsEscape": true,
 	"je": true, "jq": true, "he": true, "le": true, "ue": true, "ae": true, "ce": true, "jse": true}
@@ -143,7 +143,26 @@ func init() {
 				desc["context"] = "reused after Reset (it rendered earlier fuzz templates)"
 				r.Dist["reused_context"]++
 			}
-			c13Setup(ctx, names, vs)
+			setPanic := ""
+			func() {
+				defer func() {
+					if x := recover(); x != nil {
+						setPanic = fmt.Sprintf("%v\n%s", x, trimStack(stack()))
+					}
+				}()
+				c13Setup(ctx, names, vs)
+				if r.Evaluations%2 == 0 {
+					c13Setup(ctx, names, vs) // the same names bound a second time (no Reset in between): legal, and no different
+				}
+			}()
+			if setPanic != "" {
+				if panicInRepo(setPanic) {
+					desc["panic"] = setPanic
+					r.Violate(sig+" site="+panicSite(setPanic)+" set-panic "+firstLine(setPanic), "binding the values to the context (Set / SetStatic, the second time without Reset) panicked inside dyntpl: "+firstLine(setPanic), desc)
+				}
+				held = nil
+				return
+			}
 			res := renderWatch(key, ctx, 1500*time.Millisecond)
 			r.Dist["result:"+strings.SplitN(res.ErrStr(), ":", 2)[0]]++
 			if kind == "fuzz" {
@@ -253,6 +272,11 @@ func init() {
 				"{% if v == 1 %}{% endif %}{% if v == 1 %}{% else %}{% endif %}{% switch v %}{% endswitch %}{% switch v %}{% case 1 %}{% default %}{% endswitch %}{% switch %}{% endswitch %}|", "{% for k, x := range v %}{%= k %}{%= x %}{% endfor %}", "{% for _, x := range v.a.b %}{%= x %}{% endfor %}",
 				"{% switch v %}{% case 1 %}a{% case \"b\" %}b{% default %}d{% endswitch %}", "{% ctx x = v %}{%= x %}", "{% ctx x, ok = v.a %}{%= ok %}", "{% counter v++ %}{%= v %}", "{% counter c = 1 %}{% counter c+5 %}{%= c %}",
 				"{%= v.a.b.c %}", "{%= v[v] %}", "{% for i := 0; i < 2; i++ %}{%= v[i] %}{%= v[v] %}{%= v[nope].x %}{% endfor %}", "{%j= v %}{%hh= v %}{%f.2= v %}{%F.3= v %}{%qq= v %}",
+				// an if-ok tag WITHOUT a type for its new variable, and reads of that variable in both branches
+				"{% if x, ok := vok(v); ok %}{%= x %}{%= x.a %}{% if x == 1 %}e{% endif %}{% else %}[{%= x %}]{% endif %}", "{% if x, ok := vok(v); !ok %}{%= x.a.b %}{% else %}{%= x %}{% switch x %}{% case 1 %}o{% endswitch %}{% endif %}",
+				"{% if x, ok := vokmaybe(v); ok %}{% for _, e := range x %}{%= e %}{% endfor %}{%= x|default(1) %}{% endif %}{%= x %}", "{% if x, ok := nosuchhelper(v); ok %}{%= x %}{% else %}{%= x %}{% endif %}",
+				// the same name assigned again and again (ctx tag twice, in a loop, from a sub-path)
+				"{% ctx m = v %}{% ctx m = v %}{%= m %}", "{% for i := 0; i < 3; i++ %}{% ctx m = v %}{% ctx n = v.k %}{% endfor %}z", "{% ctx m = v.k %}{% ctx m = v.k %}{% ctx m = v %}z",
 				// square brackets in odd places (the [i] substitution slices the path between them)
 				"{% for i := 0; i < 2; i++ %}{%= v]x[i %}{%= v[ %}{%= v] %}{%= v[][i] %}{%= [i]v %}{%= v[i %}{% endfor %}",
 				"{% for i := 0; i < 2; i++ %}{%= v|default(v][i) %}{% if v]a[i == 1 %}x{% endif %}{% ctx x = v][ %}{% endfor %}",
@@ -263,11 +287,69 @@ func init() {
 				run("node", "tpl", src, []string{"v"}, []c13Val{vals[i]})
 			}
 		}
+		// a map[string]any whose values are maps and slices themselves (the built-in map inspector hands the raw values
+		// on): ranged over, assigned to the same name repeatedly, bound twice by the caller
+		{
+			data := map[string]any{"users": map[string]any{"a": 1, "b": 2}, "tags": map[string]any{"x": "y"}, "list": []any{1, "two"}, "more": map[string]any{"n": map[string]any{"d": 1}}, "s": []string{"p"}, "t": []string{"q"}}
+			for _, src := range []string{"{% for k, x := range data %}{%= k %}{% endfor %}", "{% for _, x := range data %}{% for _, y := range x %}.{% endfor %}{% endfor %}|", "{% ctx m = data.users %}{% ctx m = data.tags %}z",
+				"{% for i := 0; i < 3; i++ %}{% ctx us = data.users %}{% ctx us = data.more.n %}{%= i %}{% endfor %}", "{% ctx l = data.list %}{% ctx l = data.list %}{% ctx l = data.s %}{% ctx l = data.t %}z",
+				"{% for _, x := range data.more %}{% for _, y := range data.more %}{%= y.d %}{% endfor %}{% endfor %}"} {
+				key, err, pan := regTpl(src, true)
+				sig := "map-of-maps tpl=" + src
+				r.Count(sig, true)
+				r.Dist["map-of-maps"]++
+				if err != nil || pan != "" {
+					if pan != "" && panicInRepo(pan) {
+						r.Violate(sig+" parse-panic", "Parse panicked", map[string]any{"template": src, "panic": pan})
+					}
+					continue
+				}
+				for twice := 0; twice < 2; twice++ {
+					ctx := dyntpl.NewCtx()
+					setPanic := ""
+					func() {
+						defer func() {
+							if x := recover(); x != nil {
+								setPanic = fmt.Sprintf("%v\n%s", x, trimStack(stack()))
+							}
+						}()
+						ctx.Set("data", data, inspector.StringAnyMapInspector{})
+						if twice == 1 {
+							ctx.Set("data", data, inspector.StringAnyMapInspector{})
+							ctx.SetStatic("data2", data)
+							ctx.SetStatic("data2", data)
+						}
+					}()
+					if setPanic != "" {
+						if panicInRepo(setPanic) {
+							r.Violate(sig+" site="+panicSite(setPanic)+" set-panic "+firstLine(setPanic), "binding a map to the context a second time panicked inside dyntpl: "+firstLine(setPanic),
+								map[string]any{"data": "map[string]any of maps and slices, inspector StringAnyMapInspector", "calls": "ctx.Set(data) ; ctx.Set(data) ; ctx.SetStatic(data2) ; ctx.SetStatic(data2)", "panic": setPanic})
+						}
+						break
+					}
+					for round := 0; round < 2; round++ { // the second render on the same context, without Reset
+						res := renderWatch(key, ctx, 1500*time.Millisecond)
+						if res.Timeout {
+							r.Violate(sig+" timeout", "render did not return within 1.5 s", map[string]any{"template": src})
+							break
+						}
+						if res.Panic != "" && panicInRepo(res.Panic) {
+							r.Violate(sig+" site="+panicSite(res.Panic)+" panic "+firstLine(res.Panic), "render panicked inside dyntpl: "+firstLine(res.Panic),
+								map[string]any{"template": src, "data": "map[string]any of maps and slices, inspector StringAnyMapInspector", "bound_twice": twice == 1, "render": round + 1, "panic": res.Panic})
+							break
+						}
+					}
+				}
+			}
+		}
 		// sequences of renders on ONE context in which a deferred function, a pool, a modifier or the writer fails and
 		// the context is used again — with and without Reset in between: whatever a failed render leaves behind,
 		// the next one must not crash on it
 		seqT := []string{"{%= v|vdeferfail() %}x", "{%= v|vdefer(1) %}{%= v|vdeferfail() %}{%= v|vdefer(2) %}y", "{%= v|vdefer(3) %}z", "p{%= v|vfail() %}q", "{%= v|vacquire(4) %}{%= v|vdeferfail() %}",
-			"{% for i := 0; i < 2; i++ %}{%= v|vdeferfail() %}{% include seq2 %}{% endfor %}", "{% jsonquote %}{%= v|vdeferfail() %}{% exit %}{% endjsonquote %}"}
+			"{% for i := 0; i < 2; i++ %}{%= v|vdeferfail() %}{% include seq2 %}{% endfor %}", "{% jsonquote %}{%= v|vdeferfail() %}{% exit %}{% endjsonquote %}",
+			// a template that includes itself (the render ends with the depth error), one that includes a missing template,
+			// and plain includes after them on the same context
+			"a{% include seq7 %}", "<{% include seq3 %}>{% include seq3 %}", "b{% include nosuch13 %}", "{% for i := 0; i < 2; i++ %}c{% include seq7 %}{% endfor %}"}
 		okSeq := true
 		for i, body := range seqT {
 			tree, err, pan := parseSafe([]byte(body), true)
